@@ -1,7 +1,7 @@
 """Analysis view of a module: behaviour-preserving normalisations applied to the parsed tree before any rule looks at it, so that
 harmless refactorings do not change what the rules see.
 
- N1  helper inlining.  A *new* small private helper (a function whose qualified name is not in known_functions.json -- the list of
+ N1  helper inlining.  A *new* small helper (a function whose qualified name is not in known_functions.json -- the list of
      functions that existed when the rules were written and that rules may refer to by name) is transparent: a statement-level call
      to it is replaced by its body (parameters substituted; `return` at the tail spliced, early returns encoded with a one-trip loop
      and `break`).  Extracting a block into `_helper(...)` therefore leaves the analysed function unchanged.
@@ -49,7 +49,7 @@ def eligible_helper(fn, qual, modname):
     kf = known_functions()
     if kf is None or (modname + '.' + qual) in kf: return False
     n = fn.name
-    if not n.startswith('_') or (n.startswith('__') and n.endswith('__')): return False
+    if n.startswith('__') and n.endswith('__'): return False
     if isinstance(fn, ast.AsyncFunctionDef) or fn.decorator_list: return False
     a = fn.args
     if a.vararg or a.kwarg or a.kwonlyargs or a.posonlyargs: return False
@@ -94,6 +94,7 @@ class Inliner:
         scan(tree.body, '', False)
         for d in dup: self.helpers.pop(d, None)       # ambiguous name: leave alone
         self.counter = 0
+        self.inlined = {}          # helper name -> number of call sites inlined
 
     # ---- find an inlinable call
     def helper_of(self, call):
@@ -189,7 +190,9 @@ class Inliner:
                 m = self.bind(h, recv, call)
                 if m is not None:
                     out = self.expand(h, m, factory_for(kind, st), st)
-                    if out is not None: return out
+                    if out is not None:
+                        self.inlined[h.name] = self.inlined.get(h.name, 0) + 1
+                        return out
         # a call buried in the statement's expression (or an if-test): hoist the first eligible one into a temporary
         holder = st.test if isinstance(st, ast.If) else st.value if isinstance(st, (ast.Expr, ast.Assign, ast.AugAssign, ast.Return)) and getattr(st, 'value', None) is not None else None
         if holder is None: return None
@@ -204,6 +207,7 @@ class Inliner:
                 asg = _loc(ast.Assign(targets=[ast.Name(id=tmp, ctx=ast.Store())], value=c), st)
                 pre = self.expand(h, m, lambda v: None if v is None else ast.Assign(targets=[ast.Name(id=tmp, ctx=ast.Store())], value=v), st)
                 if pre is None: continue
+                self.inlined[h.name] = self.inlined.get(h.name, 0) + 1
                 class Rep(ast.NodeTransformer):
                     def visit_Call(self_, node):
                         if node is c: return ast.copy_location(ast.Name(id=tmp, ctx=ast.Load()), node)
@@ -317,5 +321,5 @@ def normalise_module(modname, tree):
                 if nm in inl.helpers and isinstance(getattr(ch, 'ctx', None), ast.Load): remaining.add(nm)      # passed around as a value
             scan(ch, ih)
     scan(tree, False)
-    tree._sa_inlined_helpers = sorted(set(inl.helpers) - remaining)
+    tree._sa_inlined_helpers = sorted(n_ for n_ in inl.helpers if n_ not in remaining and inl.inlined.get(n_, 0) > 0)
     return tree
